@@ -1,14 +1,16 @@
-"""C18 - a completed DFU run leaves the device flash equal to the firmware image (host-side protocol obligations)."""
+"""C18 - a completed DFU run leaves the device flash equal to the firmware image (host-side protocol obligations).
+
+All rules are stated over the ctrl_transfer events of the fully inlined paths of cli_main (see dfurules), so they do not depend on
+how the code is split into helpers or on variable names."""
 import ast
 
 from ..core import Report, Finding, AnalysisError
 from ..facts import Facts
-from ..astutil import unparse, dotted, fold, NotConstant
-from ..pathwalk import Walker, PathState, show, is_const, C
-from ..poly import Poly, to_poly
+from ..astutil import unparse
+from ..pathwalk import show, is_const, C
+from ..poly import Poly
 from .. import dfurules as D, oracle
-from ..immsites import contains, find_all, function_paths
-from .c19 import guard_poly
+from ..dfurules import PAGE, LEN, strip
 
 LEVEL = 'other'
 FILE = 'bronzebeard/dfu.py'
@@ -18,9 +20,8 @@ def F(rule, construct, stmt, msg, line=None):
     return Finding(rule, construct, stmt, msg, file=FILE, line=line if line is not None else getattr(stmt, 'lineno', None))
 
 
-def check_constants(rep, facts, helpers):
+def check_constants(rep, facts):
     consts = facts.consts
-    line = 1
     for group in ('requests', 'states', 'status', 'dfuse', 'usb'):
         for name, val in oracle.DFU[group].items():
             have = consts.get(name)
@@ -30,429 +31,380 @@ def check_constants(rep, facts, helpers):
     states = [consts.get(n) for n in oracle.DFU['states']]
     rep.check(len(set(states)) == len(states), 'R18.1.constants', 'state numbers pairwise distinct',
               lambda: F('R18.1.constants', 'STATE_*', 'distinct', 'two DFU states share a number', line=1))
-    want_kinds = {'POLL': 1, 'CLR': 1, 'ERASE': 1, 'SETADDR': 1, 'DATA': 1}
-    have = {}
-    for fn, k in helpers.kind.items():
-        have[k] = have.get(k, 0) + 1
-    for k in want_kinds:
-        rep.check(have.get(k, 0) >= 1, 'R18.1.helpers', 'a helper sends {}'.format(k),
-                  lambda k=k: F('R18.1.helpers', 'dfu helpers', k, 'no request helper sends {} (request numbers / DfuSe command bytes changed?)'.format(k), line=1))
-    for fn, d in helpers.detail.items():
-        k = helpers.kind[fn]
-        node = helpers.calls[fn]
+
+
+def check_requests(rep, facts, models):
+    """R18.1: every request on every path is well-formed for its kind."""
+    seen = {}
+    for m in models:
+        for r in m.reqs:
+            seen.setdefault((id(r.node), r.kind, r.bmRequestType, r.wValue, repr(r.pack[:2]) if r.pack else None,
+                             D.fold_sym(r.data, facts.consts) if r.kind == 'POLL' and r.data is not None else None), r)
+    kinds = {}
+    for r in seen.values():
+        kinds[r.kind] = kinds.get(r.kind, 0) + 1
+    rep.count('request forms classified', len(seen))
+    for k in ('POLL', 'CLR', 'ERASE', 'SETADDR', 'DATA'):
+        rep.check(kinds.get(k, 0) >= 1, 'R18.1.kinds', 'some path sends {}'.format(k),
+                  lambda k=k: F('R18.1.kinds', 'cli_main', k, 'no path of cli_main sends a {} request (request numbers / DfuSe command bytes changed?)'.format(k), line=1))
+    for r in seen.values():
+        k = r.kind
+        node = r.node
+        if k in ('OTHER', 'DNLOAD?'):
+            rep.fail(F('R18.1.kinds', 'ctrl_transfer', node, 'control request {} / payload command {} is not one of GETSTATUS, CLRSTATUS, DNLOAD with erase-page / set-address / data'.format(
+                r.request, r.pack[1] if r.pack else None)), instance='unknown request')
+            continue
         want_rt = oracle.DFU['bmRequestType_in'] if k == 'POLL' else oracle.DFU['bmRequestType_out']
-        rep.check(d['bmRequestType'] == want_rt, 'R18.1.request-type', '{}: bmRequestType 0x{:02x}'.format(fn, want_rt),
-                  lambda fn=fn, d=d, want_rt=want_rt, node=node: F('R18.1.request-type', fn, node,
-                                                                   'bmRequestType is {} but a class/interface {} request is 0x{:02x}'.format(d['bmRequestType'], 'IN' if want_rt & 0x80 else 'OUT', want_rt)))
+        rep.check(r.bmRequestType == want_rt, 'R18.1.request-type', '{}: bmRequestType 0x{:02x}'.format(k, want_rt),
+                  lambda r=r, want_rt=want_rt, node=node, k=k: F('R18.1.request-type', k, node,
+                                                                 'bmRequestType is {} but a class/interface {} request is 0x{:02x}'.format(r.bmRequestType, 'IN' if want_rt & 0x80 else 'OUT', want_rt)))
         if k == 'POLL':
-            rep.check(d['data_const'] == oracle.DFU['getstatus_len'], 'R18.1.getstatus-len', 'GETSTATUS asks for 6 bytes',
-                      lambda node=node, d=d: F('R18.1.getstatus-len', fn, node, 'GETSTATUS reads {} bytes; the status block is 6 bytes'.format(d['data_const'])))
+            n = D.fold_sym(r.data, facts.consts) if r.data is not None else None
+            rep.check(n == oracle.DFU['getstatus_len'], 'R18.1.getstatus-len', 'GETSTATUS asks for 6 bytes',
+                      lambda node=node, n=n: F('R18.1.getstatus-len', 'POLL', node, 'GETSTATUS reads {} bytes; the status block is 6 bytes'.format(n)))
         if k in ('ERASE', 'SETADDR'):
-            fmt = d['pack'][0] if d['pack'] else None
-            rep.check(fmt == '<BI' and d['wValue'] == 0, 'R18.1.dfuse-command', '{}: wValue 0, payload <BI (command byte + LE 32-bit address)'.format(fn),
-                      lambda node=node, fmt=fmt, d=d: F('R18.1.dfuse-command', fn, node,
-                                                        'DfuSe command is sent with wValue={} and payload format {!r}; commands travel in block 0 as command byte + little-endian 32-bit address'.format(d['wValue'], fmt)))
-            # the address parameter is what gets packed
-            f = facts.funcs[fn]
-            params = [a.arg for a in f.args.args]
-            rep.check(d['pack'] and len(d['pack'][3]) == 1 and d['pack'][3][0] in params[1:], 'R18.1.dfuse-command', '{}: packs its address parameter'.format(fn),
-                      lambda node=node: F('R18.1.dfuse-command', fn, node, 'the DfuSe command does not carry the address it was given'))
+            fmt = r.pack[0]
+            rep.check(fmt == '<BI' and r.wValue == 0 and len(r.pack[2]) == 1, 'R18.1.dfuse-command', '{}: wValue 0, payload <BI (command byte + LE 32-bit address)'.format(k),
+                      lambda node=node, fmt=fmt, r=r, k=k: F('R18.1.dfuse-command', k, node,
+                                                             'DfuSe command is sent with wValue={} and payload format {!r} ({} value(s)); commands travel in block 0 as command byte + little-endian 32-bit address'.format(
+                                                                 r.wValue, fmt, len(r.pack[2]))))
         if k == 'DATA':
-            f = facts.funcs[fn]
-            params = [a.arg for a in f.args.args]
-            rep.check(d['wValue'] == oracle.DFU['download_wvalue'], 'R18.1.block-number', 'data download uses wValue 2 (address pointer + 0)',
-                      lambda node=node, d=d: F('R18.1.block-number', fn, node,
-                                               'data is downloaded with wValue={}; DfuSe writes at pointer + (wValue - 2) * wLength, and 0 / 1 are reserved for commands'.format(d['wValue'])))
-            rep.check(d['data'] in params[1:], 'R18.1.block-number', 'data download sends the chunk it was given',
-                      lambda node=node: F('R18.1.block-number', fn, node, 'the download helper does not send its data parameter'))
+            rep.check(r.wValue == oracle.DFU['download_wvalue'], 'R18.1.block-number', 'data download uses wValue 2 (address pointer + 0)',
+                      lambda node=node, r=r: F('R18.1.block-number', 'DATA', node,
+                                               'data is downloaded with wValue={}; DfuSe writes at pointer + (wValue - 2) * wLength, and 0 / 1 are reserved for commands'.format(r.wValue)))
 
 
-def check_poll(rep, facts, helpers):
-    """R18.2: dfu_get_status sleeps bwPollTimeout (3 little-endian bytes, ms) before returning (bStatus, bState)."""
-    polls = [n for n, k in helpers.kind.items() if k == 'POLL']
-    for name in polls:
-        fn = facts.funcs[name]
-        paths = function_paths(facts, fn)
-        rets = [p for p in paths if p.end == 'return']
-        if not rets:
-            raise AnalysisError('{} has no return path'.format(name))
-        for p in rets:
-            ret = [e for e in p.events if e[0] == 'return'][-1]
-            sleeps = [(i, e) for i, e in enumerate(p.events) if e[0] == 'expr' and e[1][0] == 'call' and e[1][1] == 'time.sleep']
-            rep.check(len(sleeps) >= 1, 'R18.2.sleep', '{}: time.sleep on the path to return'.format(name),
-                      lambda: F('R18.2.sleep', name, ret[2], 'the requested poll delay is not waited for before the next request'))
-            if not sleeps:
-                continue
-            arg = sleeps[0][1][1][2][0]
-            # find the struct.unpack result and its format
-            unp = find_all(arg, lambda t: t[0] == 'unpack')
-            srcs = {u[1] for u in unp}
-            fmt = None
-            src = None
-            for s_ in srcs:
-                if s_[0] == 'call' and s_[1] == 'struct.unpack' and is_const(s_[2][0]):
-                    fmt, src = s_[2][0][1], s_
-            rep.check(fmt == '<BBBBBB', 'R18.2.layout', 'status block unpacked as six bytes',
-                      lambda: F('R18.2.layout', name, sleeps[0][1][2], 'the GETSTATUS reply is unpacked as {!r} instead of six single bytes'.format(fmt)))
-            if fmt != '<BBBBBB':
-                continue
-            # arg * 1000 == b1 | b2 << 8 | b3 << 16
-            ms = None
-            if arg[0] == 'bin' and arg[1] == '/' and arg[3] == C(1000):
-                ms = arg[2]
-            elif arg[0] == 'bin' and arg[1] == '*' and is_const(arg[3]) and arg[3][1] in (0.001,):
-                ms = arg[2]
-            weights = byte_weights(ms, src) if ms is not None else None
-            rep.check(weights == {1: 1, 2: 256, 3: 65536}, 'R18.2.delay', 'slept seconds * 1000 == byte1 | byte2 << 8 | byte3 << 16',
-                      lambda: F('R18.2.delay', name, sleeps[0][1][2],
-                                'the sleep is not bwPollTimeout (bytes 1..3 of the reply, little endian, milliseconds): weights {} / divisor {}'.format(weights, show(arg)[:60])))
-            rv = ret[1]
-            good = rv[0] == 'tuple' and len(rv[1]) == 2 and rv[1][0] == ('unpack', src, '0', 6) and rv[1][1] == ('unpack', src, '4', 6)
-            rep.check(good, 'R18.2.result', 'returns (bStatus = byte 0, bState = byte 4)',
-                      lambda: F('R18.2.result', name, ret[2], 'the helper does not return (byte 0, byte 4) of the reply as (status, state)'))
-            ridx = [i for i, e in enumerate(p.events) if e[0] == 'return'][-1]
-            rep.check(sleeps[0][0] < ridx, 'R18.2.sleep', 'sleep precedes the return', lambda: F('R18.2.sleep', name, ret[2], 'sleep after return'), nontrivial=False)
-
-
-def byte_weights(v, src):
-    """{byte index: weight} of an expression built from | + << over bytes of one unpack source; None if other."""
-    if v[0] == 'unpack' and v[1] == src:
-        return {int(v[2]): 1}
-    if v[0] == 'bin' and v[1] in ('|', '+'):
-        a, b = byte_weights(v[2], src), byte_weights(v[3], src)
-        if a is None or b is None or set(a) & set(b):
-            return None
-        a.update(b)
-        return a
-    if v[0] == 'bin' and v[1] == '<<' and is_const(v[3]):
-        a = byte_weights(v[2], src)
-        return None if a is None else {k: w << v[3][1] for k, w in a.items()}
-    if v[0] == 'bin' and v[1] == '*' and is_const(v[3]):
-        a = byte_weights(v[2], src)
-        return None if a is None else {k: w * v[3][1] for k, w in a.items()}
-    return None
-
-
-def loop_continues_on(facts, wnode, state_values):
-    """Set of state numbers for which the while condition holds, when the condition only compares one variable with constants."""
-    names = {n.id for n in ast.walk(wnode.test) if isinstance(n, ast.Name) and n.id not in facts.consts}
-    if len(names) != 1:
-        return None, None
-    var = names.pop()
-    out = set()
-    for s in state_values:
-        env = dict(facts.consts)
-        env[var] = s
-        try:
-            out.add(s) if eval_test(wnode.test, env) else None
-        except NotConstant:
-            return None, var
-    return out, var
-
-
-def eval_test(node, env):
-    if isinstance(node, ast.BoolOp):
-        vals = [eval_test(v, env) for v in node.values]
-        return all(vals) if isinstance(node.op, ast.And) else any(vals)
-    if isinstance(node, ast.UnaryOp) and isinstance(node.op, ast.Not):
-        return not eval_test(node.operand, env)
-    if isinstance(node, ast.Compare):
-        left = fold(node.left, env)
-        for op, comp in zip(node.ops, node.comparators):
-            right = fold(comp, env)
-            ok = {ast.Eq: lambda: left == right, ast.NotEq: lambda: left != right, ast.In: lambda: left in right,
-                  ast.NotIn: lambda: left not in right, ast.Lt: lambda: left < right, ast.Gt: lambda: left > right,
-                  ast.LtE: lambda: left <= right, ast.GtE: lambda: left >= right}.get(type(op))
-            if ok is None:
-                raise NotConstant('op')
-            if not ok():
-                return False
-            left = right
-        return True
-    raise NotConstant('test')
-
-
-def check_typestate(rep, facts, helpers, fn, paths):
-    """R18.3: no request while the previous download request has not settled."""
-    busy = oracle.DFU['states']['STATE_DFU_DNBUSY']
-    all_states = sorted(oracle.DFU['states'].values())
-    settle_ok = {}
-    for w in [n for n in ast.walk(fn) if isinstance(n, ast.While)]:
-        cont, var = loop_continues_on(facts, w, all_states)
-        polls_in_body = False
-        for n in ast.walk(w):
-            if isinstance(n, ast.Assign) and isinstance(n.value, ast.Call) and isinstance(n.value.func, ast.Name) \
-                    and helpers.kind.get(n.value.func.id) == 'POLL':
-                tg = n.targets[0]
-                names = [e.id for e in tg.elts if isinstance(e, ast.Name)] if isinstance(tg, ast.Tuple) else []
-                if var in names and names.index(var) == 1:
-                    polls_in_body = True
-        settle_ok[w] = (cont is not None and busy in cont and polls_in_body, cont, var)
-    rep.count('polling loops', len(settle_ok))
-    n_req = 0
-    for p in paths:
-        state = 'settled'
-        polled = False
-        pend = None
-        for kind, idx, node, args, fname, raw in D.protocol_events(p, helpers):
-            if kind in ('ERASE', 'SETADDR', 'DATA', 'CLR'):
-                n_req += 1
-                if state == 'pending':
-                    rep.fail(F('R18.3.settle', 'cli_main', node,
-                               'a {} request is issued while the {} request before it (line {}) has not been polled out of dfuDNBUSY'.format(kind, pend[0], pend[1].lineno)),
-                             instance='{} after {}'.format(kind, pend[0]))
-                else:
-                    rep.ok('R18.3.settle', '{} ({}) only when the previous request has settled'.format(kind, fname))
-                if kind != 'CLR':
-                    state, polled, pend = 'pending', False, (kind, node)
-            elif kind == 'POLL':
-                if state == 'pending':
-                    polled = True
-            elif kind in ('ENDWHILE', 'ENDWHILE0'):
-                good = settle_ok.get(node, (False, None, None))[0]
-                if state == 'pending' and polled and good:
-                    state = 'settled'
-    rep.analysed['requests on paths'] = n_req
-    for w, (good, cont, var) in settle_ok.items():
-        rep.check(good, 'R18.3.poll-loop', 'polling loop at line {} keeps polling while the device is busy'.format(w.lineno) if False else
-                  'polling loop `while {}` keeps polling while the device is busy'.format(unparse(w.test)),
-                  lambda w=w, cont=cont: F('R18.3.poll-loop', 'cli_main', w.test,
-                                           'this loop stops polling although the device may still report dfuDNBUSY (continues only on states {}) or does not refresh the state it tests'.format(
-                                               sorted(cont) if cont is not None else '?'), line=w.lineno))
-
-
-def loops_of(fn, helpers, kind):
-    out = []
-    for i, st in enumerate(fn.body):
-        if isinstance(st, ast.For):
-            called = {n.func.id for n in ast.walk(st) if isinstance(n, ast.Call) and isinstance(n.func, ast.Name)}
-            if any(helpers.kind.get(c) == kind for c in called):
-                out.append((i, st))
-    return out
-
-
-def check_addresses(rep, facts, helpers, fn, paths):
-    """R18.4 / R18.5: erase loop before write loop over the same page range; addresses base + page*page_size; chunk = same offset."""
-    er, wr = loops_of(fn, helpers, 'ERASE'), loops_of(fn, helpers, 'DATA')
-    rep.check(len(er) == 1 and len(wr) == 1 and er[0][0] < wr[0][0], 'R18.4.erase-first', 'one erase loop, then one write loop',
-              lambda: F('R18.4.erase-first', 'cli_main', 'loops', 'pages are not all erased in a loop that completes before the write loop starts', line=fn.lineno))
-    if not (len(er) == 1 and len(wr) == 1):
-        return
-    mixed = loops_of(fn, helpers, 'DATA')[0][1] is er[0][1]
-    rep.check(not mixed and unparse(er[0][1].iter) == unparse(wr[0][1].iter), 'R18.4.same-range', 'both loops run over {}'.format(unparse(er[0][1].iter)),
-              lambda: F('R18.4.same-range', 'cli_main', wr[0][1].iter, 'erase loop ranges over {} but write loop over {}'.format(unparse(er[0][1].iter), unparse(wr[0][1].iter)),
-                        line=wr[0][1].lineno))
-    it = er[0][1].iter
-    rep.check(isinstance(it, ast.Call) and dotted(it.func) == 'range' and len(it.args) == 1, 'R18.4.same-range', 'loops count pages from 0',
-              lambda: F('R18.4.same-range', 'cli_main', it, 'the page loops do not run over range(pages)', line=er[0][1].lineno))
-    base = oracle.DFU['flash_base']
-
-    def rename(v):
-        if v[0] == 'havoc':
-            return ('sym', 'PAGE') if v[1] in (getattr(er[0][1].target, 'id', None), getattr(wr[0][1].target, 'id', None)) else ('sym', v[1])
-        if v[0] in ('name', 'res'):
-            return ('sym', v[1])
-        return v
-    seen = set()
-    for p in paths:
-        ps = p.env.get('page_size', ('name', 'page_size'))
-        want = Poly.const(base) + Poly.sym(('sym', 'PAGE')) * to_poly(ps, rename)
-        for kind, idx, node, args, fname, raw in D.protocol_events(p, helpers):
-            if kind in ('ERASE', 'SETADDR') and len(args) >= 2:
-                got = to_poly(args[1], rename)
-                key = (kind, repr(got), repr(want))
-                if key in seen:
-                    continue
-                seen.add(key)
-                rep.check(got == want, 'R18.4.address', '{} address == 0x08000000 + page * page_size'.format(kind),
-                          lambda node=node, got=got, want=want, kind=kind: F('R18.4.address', 'cli_main', node,
-                                                                             '{} is sent address {} instead of {}'.format(kind, got, want)))
-            if kind == 'DATA' and len(args) >= 2:
-                code = D.strip(args[1])
-                ok = False
-                desc = show(code)[:80]
-                if code[0] == 'slice':
-                    lo, hi = to_poly(code[2], rename), to_poly(code[3], rename)
-                    wlo = Poly.sym(('sym', 'PAGE')) * to_poly(ps, rename)
-                    ok = lo == wlo and (hi - lo) == to_poly(ps, rename) and code[4] == C(None)
-                    desc = 'firmware[{} : {}]'.format(lo, hi)
-                    fw = D.strip(code[1])
-                    final_fw = D.strip(p.env.get('firmware', ('name', 'firmware')))
-                    ok = ok and (code[1] == p.env.get('firmware') or fw == final_fw)
-                key = ('DATA', desc)
-                if key in seen:
-                    continue
-                seen.add(key)
-                rep.check(ok, 'R18.5.chunk', 'chunk == padded firmware[page*page_size : (page+1)*page_size]',
-                          lambda node=node, desc=desc: F('R18.5.chunk', 'cli_main', node, 'the chunk written to a page is {} instead of the page-sized slice at the same offset as its address'.format(desc)))
-
-
-def length_poly(v, rename):
-    """len(v) for the firmware buffer expressions."""
-    s = v
-    if s[0] == 'res':
-        return Poly.sym(('LEN',))
-    if is_const(s) and isinstance(s[1], (bytes, str)):
-        return Poly.const(len(s[1]))
-    if s[0] == 'accum':
-        init, it, elem, meth = s[1], D.strip(s[2]), s[3], s[4]
-        if it[0] == 'call' and it[1] == 'range' and len(it[2]) == 1:
-            cnt = to_poly(it[2][0], rename)
-            return length_poly(init, rename) + cnt * length_poly(elem, rename)
-        raise AnalysisError('padding loop does not run over range(n)')
-    if s[0] == 'bin' and s[1] == '+':
-        return length_poly(s[2], rename) + length_poly(s[3], rename)
-    if s[0] == 'bin' and s[1] == '*':
-        for a, b in ((s[2], s[3]), (s[3], s[2])):
-            if is_const(a) and isinstance(a[1], (bytes, str)):
-                return to_poly(b, rename) * Poly.const(len(a[1]))
-    raise AnalysisError('firmware buffer expression outside the padding fragment: {}'.format(show(v)[:80]))
-
-
-def zero_only(v):
-    s = v
-    if s[0] == 'res':
-        return True
-    if is_const(s) and isinstance(s[1], bytes):
-        return set(s[1]) <= {0}
-    if s[0] == 'accum':
-        return zero_only(s[1]) and zero_only(s[3])
-    if s[0] == 'bin' and s[1] == '+':
-        return zero_only(s[2]) and zero_only(s[3])
-    if s[0] == 'bin' and s[1] == '*':
-        return any(is_const(a) and isinstance(a[1], bytes) and set(a[1]) <= {0} for a in (s[2], s[3]))
-    return False
-
-
-def check_padding(rep, facts, helpers, fn, paths):
-    """R18.6: with len = q*S + r from divmod, the padded length is pages*S on both arms and only zero bytes are added."""
+def check_poll(rep, facts, models):
+    """R18.2: after every GETSTATUS the host sleeps bwPollTimeout (bytes 1..3 of that reply, little endian, ms) before its next request."""
     seen = set()
     n = 0
-    for p in paths:
-        if not any(e[0] in ('ERASE', 'DATA') for e in D.protocol_events(p, helpers)):
-            continue
-        fw = p.env.get('firmware')
-        pages = p.env.get('pages')
-        if fw is None or pages is None:
-            raise AnalysisError('anchor vanished: firmware / pages variables in dfu.cli_main')
-        dm = find_all(pages, lambda t: t[0] == 'unpack' and D.strip(t[1])[0] == 'call' and D.strip(t[1])[1] == 'divmod')
-        if not dm:
-            raise AnalysisError('pages is not derived from divmod(len(firmware), page_size)')
-        src = dm[0][1]
-        q, r = ('unpack', src, '0', 2), ('unpack', src, '1', 2)
-        dargs = D.strip(src)[2]
-        S = dargs[1]
+    for m in models:
+        evs = m.evs
+        for j, (kind, idx, node, r) in enumerate(evs):
+            if kind != 'REQ' or r.kind != 'POLL':
+                continue
+            sleep = None
+            for kind2, idx2, node2, p2 in evs[j + 1:]:
+                if kind2 == 'REQ':
+                    break
+                if kind2 == 'SLEEP':
+                    sleep = (idx2, node2, p2)
+                    break
+            nxt = [e for e in evs[j + 1:] if e[0] == 'REQ']
+            key = (id(r.node), sleep is not None, show(sleep[2])[:200] if sleep else None, bool(nxt))
+            if key in seen:
+                continue
+            seen.add(key)
+            n += 1
+            if sleep is None:
+                if not nxt:
+                    continue       # last poll of the run: nothing follows
+                rep.fail(F('R18.2.sleep', 'GETSTATUS', r.node, 'the poll delay the device asked for (bwPollTimeout) is not waited for before the next request'),
+                         instance='sleep after poll')
+                continue
+            arg = strip(sleep[2]) if sleep[2] is not None else None
+            ms = None
+            if arg is not None and arg[0] == 'bin' and arg[1] == '/' and D.fold_sym(arg[3], facts.consts) in (1000, 1000.0):
+                ms = arg[2]
+            elif arg is not None and arg[0] == 'bin' and arg[1] == '*':
+                for x, y in ((arg[2], arg[3]), (arg[3], arg[2])):
+                    if is_const(y) and y[1] in (0.001, 1e-3):
+                        ms = x
+            rb = D.reply_bytes(ms, facts.consts) if ms is not None else None
+            if rb is None or 'weights' not in rb:
+                raise AnalysisError('cannot interpret the sleep after GETSTATUS as a function of the reply: {}'.format(show(arg)[:100] if arg else None))
+            rep.check(rb['weights'] == {1: 1, 2: 256, 3: 65536}, 'R18.2.delay', 'slept seconds * 1000 == byte1 | byte2 << 8 | byte3 << 16',
+                      lambda rb=rb, sleep=sleep, r=r: F('R18.2.delay', 'GETSTATUS', r.node,
+                                                        'the sleep is not bwPollTimeout (bytes 1..3 of the reply, little endian, milliseconds): byte weights {}'.format(
+                                                            {k: v for k, v in sorted(rb['weights'].items())})))
+            rep.check(D.reply_uid(rb['reply']) == r.uid, 'R18.2.delay', 'the delay is taken from the reply just received',
+                      lambda r=r: F('R18.2.delay', 'GETSTATUS', r.node, 'the sleep uses the poll timeout of an earlier reply'), nontrivial=False)
+    rep.count('poll sites', n)
 
-        def rename(v):
-            if v == q:
-                return ('Q',)
-            if v == r:
-                return ('R',)
-            if v[0] in ('name', 'res'):
-                return ('sym', v[1])
-            return v
-        Sp = to_poly(S, rename)
-        rem_fact = p.facts.get(r)
+
+def check_typestate(rep, facts, models):
+    """R18.3: no request while the previous download request has not settled: between a download-class request and the next
+    request the path must carry a constraint (loop exit or branch) on the state byte of the *latest* GETSTATUS reply that is
+    false when that byte is dfuDNBUSY."""
+    consts = facts.consts
+    busy = oracle.DFU['states']['STATE_DFU_DNBUSY']
+    n_req = 0
+    n_settle = 0
+    loops = {}
+    for m in models:
+        pending = None          # Request not yet settled
+        last_poll = None
+        loop_first_req = {}
+        for kind, idx, node, payload in m.evs:
+            if kind == 'REQ':
+                r = payload
+                if r.kind == 'POLL':
+                    last_poll = r
+                    continue
+                if r.kind in D.DNLOAD_KINDS or r.kind == 'CLR':
+                    n_req += 1
+                    if pending is not None:
+                        rep.fail(F('R18.3.settle', 'cli_main', r.site,
+                                   'a {} request is issued while the {} request before it (line {}) has not been polled out of dfuDNBUSY'.format(r.kind, pending.kind, pending.line)),
+                                 instance='{} after {}'.format(r.kind, pending.kind))
+                    else:
+                        rep.ok('R18.3.settle', '{} only when the previous request has settled'.format(r.kind))
+                    if r.kind != 'CLR':
+                        pending = r
+                        last_poll = None
+            elif kind in ('COND', 'ENDWHILE', 'ENDWHILE0'):
+                test, pol = payload if kind == 'COND' else (payload, False)
+                if kind != 'COND':
+                    loops.setdefault(id(node), [node, test, None])
+                if pending is None or last_poll is None:
+                    continue
+                terms = D.reply_terms(test, consts)
+                state_terms = [t for t, w, uid in terms if w == {4: 1} and uid == last_poll.uid]
+                if not state_terms:
+                    if kind != 'COND' and any(w == {4: 1} for t, w, uid in terms):
+                        loops[id(node)][2] = 'stale'
+                    continue
+                subst = {t: busy for t in state_terms}
+                val = D.eval_sym_test(test, subst, consts)
+                if val is None:
+                    others = [t for t, w, uid in terms if w != {4: 1}]
+                    if kind != 'COND':
+                        raise AnalysisError('cannot evaluate the polling-loop condition for state == dfuDNBUSY: {}'.format(show(test)[:100]))
+                    continue
+                if val != pol:
+                    # on this path the latest state is not dfuDNBUSY
+                    pending = None
+                    n_settle += 1
+                    if kind != 'COND':
+                        loops[id(node)][2] = 'good'
+                elif kind != 'COND' and loops[id(node)][2] is None:
+                    loops[id(node)][2] = 'exits-busy'
+            elif kind == 'ENDLOOP':
+                if pending is not None and any(lp[1] is node for lp in m.loops_of.get(pending.idx, [])):
+                    rep.fail(F('R18.3.settle', 'cli_main', pending.site,
+                               'the loop goes round to its next request while this {} request has not been polled out of dfuDNBUSY'.format(pending.kind)),
+                             instance='loop-back after {}'.format(pending.kind))
+                    pending = None
+    rep.analysed['requests on paths'] = n_req
+    rep.count('settle points', n_settle)
+    rep.count('polling loops', len(loops))
+    settle_failed = any(f.rule == 'R18.3.settle' for f in rep.findings)
+    for node, test, verdict in loops.values():
+        if verdict == 'good':
+            rep.ok('R18.3.poll-loop', 'polling loop `while {}` keeps polling while the device is busy'.format(unparse(node.test)))
+        elif verdict in ('exits-busy', 'stale') and settle_failed:
+            # diagnostic for the settle failure above (a loop that is not the settling loop is not a violation by itself)
+            rep.fail(F('R18.3.poll-loop', 'polling loop', node.test,
+                       'this loop {}'.format('stops polling although the device may still report dfuDNBUSY' if verdict == 'exits-busy' else
+                                             'tests a state that the GETSTATUS inside it does not refresh'), line=node.lineno),
+                     instance='poll loop {}'.format(verdict))
+
+
+def check_layout(rep, facts, fn, models):
+    """R18.4 - R18.8: addresses, chunks, padding, guard and the variant table, per path that sends a data download."""
+    consts = facts.consts
+    base = oracle.DFU['flash_base']
+    seen = set()
+    table = {}
+    n_pad = 0
+    n_paths = 0
+
+    def once(*key):
+        if key in seen:
+            return False
+        seen.add(key)
+        return True
+
+    for m in models:
+        datas = [r for r in m.reqs if r.kind == 'DATA']
+        erases = [r for r in m.reqs if r.kind == 'ERASE']
+        setaddrs = [r for r in m.reqs if r.kind == 'SETADDR']
+        if not datas:
+            if erases and m.p.end != 'raise':
+                # a path that erases but never writes and ends normally
+                if once('erase-only', id(erases[0].node)):
+                    rep.fail(F('R18.4.erase-first', 'cli_main', erases[0].site, 'a run can erase pages and end normally without writing them'), instance='erase-only path')
+            continue
+        n_paths += 1
+        d = datas[0]
+        shape = m.data_shape(d)
+        if isinstance(shape, str):
+            if once('shape', shape):
+                rep.fail(F('R18.5.chunk', 'cli_main', d.site, 'the chunk written to a page is not the page-sized slice of the padded image: ' + shape), instance='chunk shape')
+            continue
+        fw, lo, hi, S, raw = shape
+        if raw is None:
+            raise AnalysisError('the buffer sliced by the data download does not lead back to a value read from the file: {}'.format(show(fw)[:80]))
+        wl = m.page_loop(d)
+        if wl is None:
+            if once('noloop', id(d.node)):
+                rep.fail(F('R18.4.same-range', 'cli_main', d.site, 'the data download is not inside a loop over range(pages)'), instance='write loop')
+            continue
+        sym_w = m.sym_for(d, raw)
+        # R18.5 chunk: firmware[PAGE*S : PAGE*S + S], S free of PAGE
+        ok = (not D.mentions(S, PAGE)) and not S.is_zero() and lo == Poly.sym(PAGE) * S
+        if once('chunk', repr(lo), repr(hi)):
+            rep.check(ok, 'R18.5.chunk', 'chunk == padded firmware[page*S : (page+1)*S]',
+                      lambda d=d, lo=lo, hi=hi: F('R18.5.chunk', 'cli_main', d.site,
+                                                  'the chunk written to a page is firmware[{} : {}] instead of the page-sized slice at the same offset as its address'.format(lo, hi)))
+        if not ok:
+            continue
+        # R18.4 addresses
+        for r in erases + setaddrs:
+            sym = m.sym_for(r, raw)
+            pl = m.page_loop(r)
+            got = sym.poly(r.addr) if r.addr is not None else None
+            want = Poly.const(base) + Poly.sym(PAGE) * S
+            if once('addr', r.kind, repr(got), repr(want)):
+                rep.check(pl is not None and got == want, 'R18.4.address', '{} address == 0x08000000 + page * S (S = size of the chunk written)'.format(r.kind),
+                          lambda r=r, got=got, want=want: F('R18.4.address', 'cli_main', r.site, '{} is sent address {} instead of {}'.format(r.kind, got, want)))
+        # R18.4 erase loop completes before the write loop, over the same range
+        wl_idx, wl_node, wl_it, _ = wl
+        er_ok = bool(erases)
+        why = 'no page is erased before the write loop starts'
+        for r in erases:
+            el = m.page_loop(r)
+            if el is None:
+                er_ok, why = False, 'the erase request is not inside a loop over range(pages)'
+                continue
+            el_idx, el_node, el_it, _ = el
+            end = m.loop_end.get(el_idx)
+            if el_idx == wl_idx:
+                er_ok, why = False, 'pages are erased in the same loop that writes them'
+            elif end is None or end > wl_idx:
+                er_ok, why = False, 'the erase loop has not completed when the write loop starts'
+            elif el_it != wl_it:
+                er_ok, why = False, 'erase loop ranges over {} but write loop over {}'.format(show(el_it), show(wl_it))
+            elif r.idx > d.idx:
+                er_ok, why = False, 'a page is erased after it has been written'
+        if once('erase-first', er_ok, why if not er_ok else ''):
+            rep.check(er_ok, 'R18.4.erase-first', 'one erase loop completes, then the write loop runs over the same range',
+                      lambda d=d, why=why: F('R18.4.erase-first', 'cli_main', d.site, why))
+        for r in setaddrs:
+            sl = m.page_loop(r)
+            if once('setaddr-loop', sl is not None and sl[0] == wl_idx):
+                rep.check(sl is not None and sl[0] == wl_idx and r.idx < d.idx, 'R18.4.address', 'set-address precedes the data download in the same iteration',
+                          lambda r=r: F('R18.4.address', 'cli_main', r.site, 'the address pointer is not set in the iteration that downloads the chunk'), nontrivial=False)
+        if not setaddrs and once('nosetaddr'):
+            rep.fail(F('R18.4.address', 'cli_main', d.site, 'the data download is not preceded by a set-address command'), instance='set-address')
+        rng = wl_it
+        rep.check(len(rng[2]) == 1 and not rng[3], 'R18.4.same-range', 'loops count pages from 0',
+                  lambda d=d, rng=rng: F('R18.4.same-range', 'cli_main', d.site, 'the page loop runs over {} instead of range(pages)'.format(show(rng))), nontrivial=False)
+        if len(rng[2]) != 1:
+            continue
+        N = sym_w.poly(rng[2][0])
+        # R18.6 padding: len(FW) == N*S given LEN = Q*S + R from divmod, zero bytes only
+        dm = D.find_all(rng[2][0], lambda t: t[0] == 'unpack' and strip(t[1])[0] == 'call' and strip(t[1])[1] == 'divmod')
+        if not dm:
+            raise AnalysisError('the page count {} is not derived from divmod(len(firmware), page_size)'.format(show(rng[2][0])[:80]))
+        src = dm[0][1]
+        q, r_ = ('unpack', src, '0', 2), ('unpack', src, '1', 2)
+        dargs = strip(src)[2]
+        if len(dargs) != 2:
+            raise AnalysisError('divmod call shape')
+        dm_ok = sym_w.poly(dargs[0]) == Poly.sym(LEN) and sym_w.poly(dargs[1]) == S
+        rep.check(dm_ok, 'R18.6.padding', 'pages, rem = divmod(len(firmware), S)',
+                  lambda d=d, dargs=dargs: F('R18.6.padding', 'cli_main', 'divmod', 'the page count is derived from divmod({}, {}) instead of divmod(len(firmware), page size)'.format(
+                      sym_w.poly(dargs[0]), sym_w.poly(dargs[1])), line=fn.lineno), nontrivial=False)
+        rem_fact = m.p.facts.get(r_)
         r_zero = bool(rem_fact and rem_fact['eq'] is not None and rem_fact['eq'][1] == 0)
-        try:
-            L = length_poly(fw, rename)
-        except AnalysisError as e:
-            raise
-        Lsub = L.subst(('LEN',), Poly.sym(('Q',)) * Sp + Poly.sym(('R',)))
-        P = to_poly(pages, rename) * Sp
-        diff = Lsub - P
+        Q, R = Poly.sym(q), Poly.sym(r_)
+        total = sym_w.length(fw)
+        diff = (total - N * S).subst(LEN, Q * S + R)
         if r_zero:
-            diff = diff.subst(('R',), Poly.const(0))
+            diff = diff.subst(r_, Poly.const(0))
         # a padding loop that ran zero times means its count is zero: reduce modulo that relation
-        for ev in p.events:
+        for ev in m.p.events:
             if ev[0] == 'loop0':
-                it = D.strip(ev[1])
-                if it[0] == 'call' and it[1] == 'range' and len(it[2]) == 1:
-                    X = to_poly(it[2][0], rename)
+                it = strip(ev[1])
+                if it[0] == 'call' and it[1] == 'range' and len(it[2]) == 1 and it != wl_it:
+                    X = sym_w.poly(it[2][0]).subst(LEN, Q * S + R)
                     if r_zero:
-                        X = X.subst(('R',), Poly.const(0))
+                        X = X.subst(r_, Poly.const(0))
                     for k in (1, -1):
                         if (diff + X * Poly.const(k)).is_zero():
                             diff = Poly()
-        key = (repr(diff), r_zero, show(fw)[:60])
-        if key in seen:
+        if once('pad', repr(diff), r_zero, show(fw)[:80]):
+            n_pad += 1
+            rep.check(diff.is_zero(), 'R18.6.padding', 'rem {} 0: padded length == pages * S'.format('==' if r_zero else '!='),
+                      lambda diff=diff, r_zero=r_zero: F('R18.6.padding', 'cli_main', 'padding (rem {} 0)'.format('==' if r_zero else '!='),
+                                                         'with len(firmware) = q*S + rem the length of the buffer the chunks are sliced from, minus pages*S, is {} (must be 0): the last page is partly written / out of range'.format(diff),
+                                                         line=fn.lineno))
+            rep.check(sym_w.zero_extension(fw), 'R18.6.zeros', 'the image is only ever extended by zero bytes at its end',
+                      lambda: F('R18.6.zeros', 'cli_main', 'padding bytes', 'the firmware image is padded with something other than zero bytes', line=fn.lineno), nontrivial=False)
+        # R18.7 guard: before the first request, LEN - CAP > 0 -> refuse, CAP = S * C
+        first = min(r.idx for r in m.sends) if m.sends else d.idx
+        guards = [g for g in m.capacity(sym_w, first) if g[2] is False]
+        cap = None
+        for idx, node, pol, g in guards:
+            a, b, high = D.split_by(g, LEN)
+            if not high and b == Poly.const(1):
+                cap = -a
+        if once('guard', repr(cap)):
+            rep.check(cap is not None, 'R18.7.in-range', 'size guard len(firmware) > CAP -> refuse precedes the first request',
+                      lambda d=d: F('R18.7.in-range', 'cli_main', 'size guard', 'requests can be sent without the firmware length having been checked against the flash size', line=fn.lineno))
+        if cap is None:
             continue
-        seen.add(key)
-        n += 1
-        node = fn
-        rep.check(diff.is_zero(), 'R18.6.padding', 'rem {} 0: padded length == pages * page_size'.format('==' if r_zero else '!='),
-                  lambda diff=diff, r_zero=r_zero: F('R18.6.padding', 'cli_main', 'padding (rem {} 0)'.format('==' if r_zero else '!='),
-                                                     'with len(firmware) = q*page_size + rem the padded length minus pages*page_size is {} (must be 0): the last page is {}'.format(
-                                                         diff, 'partly written / out of range'), line=fn.lineno))
-        rep.check(zero_only(fw), 'R18.6.zeros', 'the image is only ever extended by zero bytes',
-                  lambda: F('R18.6.zeros', 'cli_main', 'padding bytes', 'the firmware image is padded with something other than zero bytes', line=fn.lineno), nontrivial=False)
-        dm_ok = D.strip(dargs[0])[0] == 'call' and D.strip(dargs[0])[1] == 'len'
-        rep.check(dm_ok, 'R18.6.padding', 'pages, rem = divmod(len(firmware), page_size)',
-                  lambda: F('R18.6.padding', 'cli_main', 'divmod', 'page count is not derived from the firmware length', line=fn.lineno), nontrivial=False)
-    rep.count('padding cases', n)
-
-
-def check_guard_and_table(rep, facts, helpers, fn, paths):
-    table = {}
-    for p in paths:
-        evs = D.protocol_events(p, helpers)
-        if not any(e[0] in ('ERASE', 'DATA', 'SETADDR') for e in evs):
+        Cq = D.divide(cap, S)
+        if once('guard-cap', repr(cap), repr(S)):
+            rep.check(Cq is not None and not D.mentions(Cq, PAGE), 'R18.7.in-range', 'CAP == S * page_count (all addresses below base + CAP)',
+                      lambda cap=cap, S=S: F('R18.7.in-range', 'cli_main', 'size guard', 'the size guard admits {} bytes, which is not a whole number of pages of {} bytes'.format(cap, S), line=fn.lineno))
+        if Cq is None:
             continue
-        ps = p.env.get('page_size', ('name', 'page_size'))
-        pc = p.env.get('page_count', ('name', 'page_count'))
-
-        def rename(v):
-            return ('sym', v[1]) if v[0] in ('name', 'res') else v
-        want = Poly({(('LEN',),): 1}) - to_poly(ps, rename) * to_poly(pc, rename)
-        first_req = min(e[1] for e in evs if e[0] in ('ERASE', 'DATA', 'SETADDR', 'CLR'))
-        guarded = False
-        for kind, idx, node, args, fname, raw in evs:
-            if kind == 'COND' and idx < first_req:
-                g = guard_poly(args[0])
-                if g is not None and g == want and args[1] is False:
-                    guarded = True
-        rep.check(guarded, 'R18.7.in-range', 'size guard precedes the first request (all addresses below base + page_count*page_size)',
-                  lambda: F('R18.7.in-range', 'cli_main', 'size guard', 'requests can be sent for a firmware longer than page_size*page_count: pages beyond the flash are addressed', line=fn.lineno))
-        for t, pol, node in p.conds:
-            if pol and t[0] == 'cmp' and t[1] == '==' and is_const(t[3]) and isinstance(t[3][1], str) and len(t[3][1]) == 1 \
-                    and t[2][0] == 'sub' and t[2][2] == C(2):
-                if is_const(pc) and is_const(ps):
-                    table[t[3][1]] = (pc[1], ps[1], node)
+        # R18.8 variant table
+        letter = m.gd32_letter()
+        if letter is not None:
+            if len(Cq.terms) <= 1 and all(k == () for k in Cq.terms) and len(S.terms) == 1 and () in S.terms:
+                table[letter[0]] = (Cq.terms.get((), 0), S.terms[()], letter[1])
+        else:
+            for k in Cq.terms:
+                for s_ in k:
+                    tl = D.table_lookup(s_, consts) if isinstance(s_, tuple) else None
+                    if tl is not None and Cq == Poly.sym(s_) and len(S.terms) == 1 and () in S.terms:
+                        name, dct, key = tl
+                        ks = strip(key)
+                        if ks[0] == 'sub' and ks[2] == C(2):
+                            for kk, vv in dct.items():
+                                table[kk] = (vv, S.terms[()], facts.assign_nodes.get(name))
+    rep.count('padding cases', n_pad)
+    rep.count('flashing paths', n_paths)
     for letter, n in oracle.DFU['gd32_pages'].items():
         have = table.get(letter)
         rep.check(have is not None and have[0] == n and have[1] == oracle.DFU['gd32_page_size'], 'R18.8.variants',
                   'GD32 serial letter {} -> {} pages of {} bytes'.format(letter, n, oracle.DFU['gd32_page_size']),
-                  lambda letter=letter, n=n, have=have: F('R18.8.variants', 'cli_main', have[2] if have else 'serial number table',
-                                                          'GD32 variant {!r} is given {} pages of {} bytes; the part has {} pages of 1024 bytes'.format(
-                                                              letter, have[0] if have else None, have[1] if have else None, n), line=have[2].lineno if have else fn.lineno))
+                  lambda letter=letter, n=n, have=have: F('R18.8.variants', 'cli_main', have[2] if have and have[2] is not None else 'serial number table',
+                                                          'GD32 variant {!r} is flashed as {} pages of {} bytes; the part has {} pages of 1024 bytes'.format(
+                                                              letter, have[0] if have else None, have[1] if have else None, n),
+                                                          line=getattr(have[2], 'lineno', fn.lineno) if have else fn.lineno))
 
 
 def run(repo, tier):
     facts = Facts(repo.dfu, FILE)
     rep = Report('C18', LEVEL,
-                 'Host-side obligations of the DfuSe download protocol decided on the syntax tree of dfu.py: protocol constants vs. DFU 1.1 / '
-                 'DfuSe; GETSTATUS helper sleeps bwPollTimeout and returns (bStatus, bState); typestate over every path of cli_main: no '
-                 'download-class request while the previous one has not been polled out of dfuDNBUSY by a loop that keeps polling while busy; '
-                 'erase loop precedes write loop over the same range; erase / set-address addresses normalise to 0x08000000 + page*page_size and '
-                 'the chunk is the slice at the same offset; padding identity len = q*S + r => padded length = pages*S with zero bytes only; '
-                 'size guard precedes the first request; GD32 variant table.')
+                 'Host-side obligations of the DfuSe download protocol decided on the syntax tree of dfu.py.  cli_main is path-enumerated '
+                 'with all helpers inlined; the events are the ctrl_transfer calls classified by their folded arguments.  Protocol constants '
+                 'vs. DFU 1.1 / DfuSe; every request well-formed for its kind; after every GETSTATUS the host sleeps bwPollTimeout of that '
+                 'reply; typestate over every path: no download-class request while the previous one has not been polled out of dfuDNBUSY '
+                 '(a path constraint on the state byte of the latest reply that is false for dfuDNBUSY); erase loop completes before the '
+                 'write loop over the same range; erase / set-address addresses normalise to 0x08000000 + page*S where S is the size of the '
+                 'chunk written, and the chunk is the slice at page*S; padding identity len = q*S + r => length of the sliced buffer = '
+                 'pages*S with zero bytes only; size guard with capacity S*C precedes the first request; GD32 variant table.')
     rep.trusted_base = ['CPython ast', 'bbverif.pathwalk / poly', 'DFU 1.1 and DfuSe numbers (oracle)']
     rep.not_decided = ['that the *device* ends up holding those bytes under all busy/error schedules (needs a device model and schedule exploration)',
                        'len <= S*C  =>  ceil(len/S) <= C is arithmetic, stated, not checked']
-    helpers = D.Helpers(facts)
     fn, paths = D.main_paths(facts)
     rep.count('paths through cli_main', len(paths))
-    rep.count('request helpers classified', len(helpers.kind))
-    check_constants(rep, facts, helpers)
-    check_poll(rep, facts, helpers)
-    check_typestate(rep, facts, helpers, fn, paths)
-    check_addresses(rep, facts, helpers, fn, paths)
-    check_padding(rep, facts, helpers, fn, paths)
-    check_guard_and_table(rep, facts, helpers, fn, paths)
-    rep.sample({'helpers': helpers.kind, 'details': {k: {kk: str(vv) for kk, vv in v.items()} for k, v in helpers.detail.items()}})
+    models = [D.PathModel(p, facts.consts) for p in paths]
+    check_constants(rep, facts)
+    check_requests(rep, facts, models)
+    check_poll(rep, facts, models)
+    check_typestate(rep, facts, models)
+    check_layout(rep, facts, fn, models)
     rep.floor('paths through cli_main', 20)
-    rep.floor('request helpers classified', 5)
-    rep.floor('polling loops', 3)
+    rep.floor('request forms classified', 5)
+    rep.floor('polling loops', 1)
+    rep.floor('settle points', 3)
     rep.floor('padding cases', 2)
     rep.floor('requests on paths', 10)
+    rep.floor('poll sites', 1)
     return rep
